@@ -5,7 +5,9 @@
 set -u
 out="$1"; shift
 rm -rf "$out"; mkdir -p "$out/logs"
+git clone -q /repo "$out/repo"      # a clone: /repo itself may have a seeded change applied while this runs
 rsync -a --exclude .git --exclude work --exclude replays --exclude evidence --exclude 'harness/target' /verif/ "$out/verif/"
+sed -i "s#/repo/simple-dns#$out/repo/simple-dns#; s#/repo/simple-mdns#$out/repo/simple-mdns#" "$out/verif/harness/Cargo.toml"
 : > "$out/result.txt"
 for seed in "$@"; do
   for id in C01 C02 C03 C04 C05 C06 C07 C08 C09 C10 C11 C12 C13 C14 C15 C16 C17 C18 C19 C20; do
@@ -13,5 +15,5 @@ for seed in "$@"; do
     echo "seed=$seed $id rc=$rc $(tail -1 "$out/logs/$id-$seed.log" | cut -c1-120)" >> "$out/result.txt"
   done
 done
-rm -rf "$out/verif"
+rm -rf "$out/verif" "$out/repo"
 echo done >> "$out/result.txt"
